@@ -8,7 +8,7 @@
    node shrinks children before the parent), written out in Model/C01_Scope.clean0.  No modelled call is left out. *)
 From Coq Require Import List String Bool Arith.
 Import ListNotations.
-From TD Require Import Model.C01_Tree Model.C01_Ops Model.C01_Scope Proofs.C01_MainP.
+From TD Require Import Model.C01_Tree Model.C01_Ops Model.C01_Scope Proofs.C01_SetP Proofs.C01_AutoP Proofs.C01_MainP.
 Open Scope string_scope.
 Open Scope list_scope.
 
@@ -77,6 +77,25 @@ Theorem C01_batch_size_setter : forall t sz new p d,
   coh p d (fst (set_bs sz t new)) = true.
 Proof. exact Proofs.C01_BatchP.set_bs_coh. Qed.
 Print Assumptions C01_batch_size_setter.
+
+(* _validate_value: whatever it returns (a value to store, or an error) the container stays coherent — also when it
+   adopted the value's dim names and pushed them to the other children — and a returned value is a coherent entry of
+   the container: leading dims = batch size, on the container's device, one name per dim.  The value is any tensor, or a
+   tensordict that is coherent by itself; hollow-freeness is needed only when its batch size has to be coerced. *)
+Theorem C01_validate_value : forall sk sbs sdv snm ses v p d self' r,
+  coh p d (Node sk sbs sdv snm ses) = true ->
+  coh [] None v = true ->
+  (sbs = [] \/ prefixb sbs (tshape v) = true \/ hollow_free v = true) ->
+  validate_tree (Node sk sbs sdv snm ses) v = (self', r) ->
+  coh p d self' = true /\ thdr self' = Some (sk, sbs, sdv) /\ (forall t, r = Ok t -> coh sbs sdv t = true).
+Proof. exact validate_tree_coh. Qed.
+Print Assumptions C01_validate_value.
+
+(* auto_batch_size_(k) in its growing regime (no limit, or a limit not below the rank of any node of the subtree) *)
+Theorem C01_auto_batch_size : forall t k p d,
+  coh p d t = true -> hollow_free t = true -> auto_scope k p t -> coh p d (fst (auto_bs t k)) = true.
+Proof. exact auto_bs_coh. Qed.
+Print Assumptions C01_auto_batch_size.
 
 (* non-vacuity: a three-level tree with a rank-0 root, a size-0 dim, names and a device satisfies the premises, and a
    history with an ill-shaped write, a write through a nested handle, a names adoption and a batch-size change is in
